@@ -41,7 +41,8 @@ Definition estudy (st : study) : tr :=
      ebool (s_active st)].
 Definition ealgo (a : algo) : tr :=
   L [ebool (a_spec a); enat (a_np a); enat (a_nf a); elist (fun p => L [enat (fst p); enat (snd p)]) (a_fed a);
-     elist edna (e_pending a); ebool (e_init a); elist edna (e_pop a); enat (e_gen a); enat (e_lockgen a); enat (ig_np a); enat (ig_nf a); enat (e_setups a)].
+     elist edna (e_pending a); ebool (e_init a); elist edna (e_pop a); enat (e_gen a); enat (e_lockgen a); enat (ig_np a); enat (ig_nf a); enat (e_setups a);
+     elist (fun p => L [enat (fst (fst p)); enat (snd (fst p)); eZ (snd p)]) (a_fedv a)].
 Definition ethread (th : tstate) : tr :=
   L [ebool (match pc th with None => true | Some _ => false end); enat (r_study th); enat (length (held th))].
 
